@@ -81,3 +81,5 @@ mod ensure;
 mod matrix;
 mod query;
 mod subgraph;
+#[cfg(graphrs_verif)]
+pub mod verif;
